@@ -22,8 +22,13 @@ def tok_text(t, v):
     return TEXT.get(t, t)
 
 
+# spellings of the junk token: characters that belong to no token when they stand alone (always written with blanks around them,
+# so that they cannot join a neighbour into a literal such as $3 or .name)
+JUNK = ['!', '@', ' $ ', ' . ', " ' ", '?', '~', ' " ', ' 0x ', ' # ']
+
+
 def render(tokens, compact=False):
-    parts = [tok_text(t, v) for t, v in tokens]
+    parts = [(JUNK[(i + len(tokens)) % len(JUNK)] if t == '!' else tok_text(t, v)) for i, (t, v) in enumerate(tokens)]
     if not compact:
         return ' '.join(parts)
     out = ''
